@@ -706,6 +706,7 @@ def judge_run(rec, info, o, fe):
         rec.cls('scipy-returned-nan-x')
         gotm, xm = np.where(xnan, 0.0, got), np.where(xnan, 0.0, x)
         cands = [(np.where(xnan, 0.0, a_), f_) for a_, f_ in cands]
+        xs = np.where(xnan | ~np.isfinite(xs), 1.0, xs)        # (the scale of an undecidable entry must not poison the others)
     alt, flags = pick(rec, gotm, cands, 1e-12, xs)
     lens_ok = rec.close('lens-at-returned-x', gotm, xm, 1e-12, key='lens-at-returned-x:unexplained', scale=xs, alt=alt, flags=flags,
               msg=f'{fe}: after optimize() the variables are {got.tolist()} but result.x = {x.tolist()}'
@@ -726,6 +727,10 @@ def judge_run(rec, info, o, fe):
             cands.append((last[1], (MECH_LAST,)))
         if MECH_MP in lens_flags:
             cands.append((o['m0'], (MECH_MP,)))
+        if xnan.any() and o['fun'] == W.PENALTY:
+            # scipy handed back a NaN vector together with the penalty it was given for it: no lens state corresponds to
+            # that pair (the lens keeps its last finite values), the returned objective is not a merit of any lens
+            cands.append((o['merit_after'], (MECH_NANX,)))
         vx = o.get('value_at_returned_x')
         if lens_ok and not o['returned_point_evaluated'] and vx is not None and (not o['success'] or o['returned_fun_is_logged_value']):
             # scipy (L-BFGS-B after an abnormal line search - also as the local search inside dual_annealing, whose
